@@ -120,13 +120,18 @@ def reduce_has_init(fn):
     return None
 
 
-def is_none_test(test, var):
+def is_none_test(test, var=None):
+    """`<name> is None` somewhere in the test (any local name when `var` is None: robust to renames)."""
     for n in ast.walk(test):
-        if (isinstance(n, ast.Compare) and isinstance(n.left, ast.Name) and n.left.id == var and len(n.ops) == 1
-                and isinstance(n.ops[0], ast.Is) and isinstance(n.comparators[0], ast.Constant)
+        if (isinstance(n, ast.Compare) and isinstance(n.left, ast.Name) and (var is None or n.left.id == var)
+                and len(n.ops) == 1 and isinstance(n.ops[0], ast.Is) and isinstance(n.comparators[0], ast.Constant)
                 and n.comparators[0].value is None):
-            return True
-    return False
+            return n.left.id
+    return None
+
+
+def str_consts(nodes):
+    return [c.value for st in nodes for c in ast.walk(st) if isinstance(c, ast.Constant) and isinstance(c.value, str)]
 
 
 def raises_sfe(body):
@@ -186,7 +191,13 @@ def main(outdir=None, report_path=None):
     # ---- xyz
     f, tt = outer("p_xyz.py", "P_xyz", "parseLines", 2)
     hs = [record("p_xyz.py", f, t)[0] for t in tt]
-    cfg["xyz"] = {"H1": hs[0] if len(hs) > 0 else [], "H2": hs[1] if len(hs) > 1 else []}
+    title_opt = False
+    if tt:
+        for n in ast.walk(tt[0]):
+            if (isinstance(n, ast.Assign) and any(isinstance(t, ast.Attribute) and t.attr == "title" for t in n.targets)
+                    and isinstance(n.value, ast.IfExp)):
+                title_opt = True
+    cfg["xyz"] = {"H1": hs[0] if len(hs) > 0 else [], "H2": hs[1] if len(hs) > 1 else [], "titleOptional": title_opt}
     # ---- rawxyz
     f, tt = outer("p_rawxyz.py", "P_rawxyz", "parseLines", 1)
     cfg["rawxyz"] = {"H": record("p_rawxyz.py", f, tt[0])[0] if tt else []}
@@ -196,9 +207,22 @@ def main(outdir=None, report_path=None):
     checkA = False
     if tt:
         for n in ast.walk(tt[0]):
-            if isinstance(n, ast.If) and is_none_test(n.test, "xcfg_A") and raises_sfe(n.body):
+            # recognised by its message, not by the name of the local
+            if isinstance(n, ast.If) and is_none_test(n.test) and raises_sfe(n.body) \
+                    and any("A =" in c for c in str_consts(n.body)):
                 checkA = True
-    cfg["xcfg"] = {"H": H, "checkA": checkA}
+    # does the `ecnt != xcfg_entry_count` check precede the `for i in range(p_auxnum)` fill loop?
+    ecnt_line = fill_line = None
+    if tt:
+        for n in ast.walk(tt[0]):
+            # both recognised by their string constants (robust to renamed locals)
+            if isinstance(n, ast.If) and raises_sfe(n.body) and any("entry_count" in c for c in str_consts(n.body)):
+                ecnt_line = n.lineno
+            if isinstance(n, ast.For) and any(c == "aux%d" for c in str_consts(n.body)):
+                fill_line = n.lineno
+    if ecnt_line is None or fill_line is None:
+        problems.append("p_xcfg.py: entry_count check or auxiliary fill loop not found")
+    cfg["xcfg"] = {"H": H, "checkA": checkA, "ecntFirst": bool(ecnt_line and fill_line and ecnt_line < fill_line)}
     # ---- pdb
     f, tt = outer("p_pdb.py", "P_pdb", "parseLines", 1)
     H = record("p_pdb.py", f, tt[0])[0] if tt else []
@@ -212,16 +236,24 @@ def main(outdir=None, report_path=None):
         for t in inner:
             c, s = record("p_pdb.py", f, t)
             Hopt = s if Hopt is None else [k for k in Hopt if k in s]
+        # the local that holds the last atom: the one assigned from `….getLastAtom()`
+        last_name = None
         for n in ast.walk(tt[0]):
-            if isinstance(n, ast.If) and is_none_test(n.test, "last_atom") and raises_sfe(n.body):
+            if (isinstance(n, ast.Assign) and isinstance(n.value, ast.Call) and isinstance(n.value.func, ast.Attribute)
+                    and n.value.func.attr == "getLastAtom" and isinstance(n.targets[0], ast.Name)):
+                last_name = n.targets[0].id
+        if last_name is None:
+            problems.append("p_pdb.py: assignment from getLastAtom() not found")
+        for n in ast.walk(tt[0]):
+            if isinstance(n, ast.If) and last_name and is_none_test(n.test, last_name) and raises_sfe(n.body):
                 consts = {c.value for c in ast.walk(n.test) if isinstance(c, ast.Constant)}
                 if {"SIGATM", "ANISOU", "SIGUIJ"} <= consts:
                     guard = True
-        # `last_atom = None` before the `for` loop
+        # `<last atom> = None` before the `for` loop
         for st in tt[0].body:
             if isinstance(st, ast.For):
                 break
-            if (isinstance(st, ast.Assign) and any(isinstance(t, ast.Name) and t.id == "last_atom" for t in st.targets)
+            if (isinstance(st, ast.Assign) and any(isinstance(t, ast.Name) and t.id == last_name for t in st.targets)
                     and isinstance(st.value, ast.Constant) and st.value.value is None):
                 init = True
     cfg["pdb"] = {"H": H, "Hopt": Hopt or [], "guard": guard, "lastAtomInit": init}
